@@ -545,3 +545,116 @@ fn c14_config_witness() {
     core::mem::forget(cfg2);
     core::mem::forget(cert);
 }
+
+// ---- C18: trust wiring -- the root certificate list handed to the HTTP client is exactly
+// command line ++ endpoint ++ global, in that order, for every presence pattern ---------------------
+// One instance per presence pattern (a symbolic number of list entries makes the Vec growth allocate
+// a symbolic size); file names are one-byte strings with symbolic content.
+fn roots<const CLI: bool, const EP: bool, const GLOB: bool>() {
+    let bc = any_lower();
+    let be = any_lower();
+    let bg = any_lower();
+    let glob_table: bool = kani::any();
+    let mut config = Config::default();
+    let mut ep = mk_ep(1);
+    if EP {
+        ep.root_certificates = Some(vec![name1(be)]);
+    }
+    if GLOB {
+        let mut g = none_glob();
+        g.root_certificates = Some(vec![name1(bg)]);
+        config.global = Some(g);
+    } else if glob_table {
+        config.global = Some(none_glob());
+    }
+    let nc = name1(bc);
+    let cli: [&str; 1] = [nc.as_str()];
+    let r = if CLI { ep.to_generic(&config, &cli) } else { ep.to_generic(&config, &[]) };
+    match &r {
+        Ok(e) => {
+            let want = CLI as usize + EP as usize + GLOB as usize;
+            assert!(e.root_certificates.len() == want, "C18: a configured root certificate source was dropped or an extra one added");
+            let mut k = 0;
+            if CLI {
+                assert!(e.root_certificates[k].as_bytes()[0] == bc, "C18: --root-cert entries must come first");
+                k += 1;
+            }
+            if EP {
+                assert!(e.root_certificates[k].as_bytes()[0] == be, "C18: endpoint root_certificates must follow the command line ones");
+                k += 1;
+            }
+            if GLOB {
+                assert!(e.root_certificates[k].as_bytes()[0] == bg, "C18: global root_certificates must come last");
+            }
+            assert!(e.nonce.is_none(), "C18: a fresh endpoint has no nonce");
+        }
+        Err(_) => assert!(false, "C18: endpoint construction failed"),
+    }
+    core::mem::forget(r);
+    core::mem::forget(ep);
+    core::mem::forget(config);
+    core::mem::forget(nc);
+}
+macro_rules! roots_inst {
+    ($n:ident, $c:expr, $e:expr, $g:expr) => {
+        #[kani::proof]
+        #[kani::stub(std::hash::RandomState::new, rs_stub)]
+        #[kani::stub(alloc::fmt::format, crate::verif_env::fmt_stub)]
+        #[kani::unwind(2)]
+        fn $n() {
+            roots::<$c, $e, $g>();
+        }
+    };
+}
+roots_inst!(c18_roots_000, false, false, false);
+roots_inst!(c18_roots_001, false, false, true);
+roots_inst!(c18_roots_010, false, true, false);
+roots_inst!(c18_roots_011, false, true, true);
+roots_inst!(c18_roots_100, true, false, false);
+roots_inst!(c18_roots_101, true, false, true);
+roots_inst!(c18_roots_110, true, true, false);
+roots_inst!(c18_roots_111, true, true, true);
+
+// ---- C13: file mode / owner settings: configured value, else the documented default ------------
+#[kani::proof]
+#[kani::stub(std::hash::RandomState::new, rs_stub)]
+#[kani::unwind(2)]
+fn c13_mode_owner_getters() {
+    let has_glob_table: bool = kani::any();
+    let has_pk: bool = kani::any();
+    let has_crt: bool = kani::any();
+    let pkm: u32 = kani::any();
+    let crtm: u32 = kani::any();
+    let pk_user: bool = kani::any();
+    let crt_group: bool = kani::any();
+    let mut config = Config::default();
+    if has_glob_table {
+        let mut g = none_glob();
+        if has_pk {
+            g.pk_file_mode = Some(pkm);
+        }
+        if has_crt {
+            g.cert_file_mode = Some(crtm);
+        }
+        if pk_user {
+            g.pk_file_user = Some(String::from("u"));
+        }
+        if crt_group {
+            g.cert_file_group = Some(String::from("gg"));
+        }
+        config.global = Some(g);
+    }
+    let want_pk = if has_glob_table && has_pk { pkm } else { 0o600 };
+    let want_crt = if has_glob_table && has_crt { crtm } else { 0o644 };
+    assert!(config.get_pk_file_mode() == want_pk, "C13: pk_file_mode must be the configured value, 0600 by default");
+    assert!(config.get_cert_file_mode() == want_crt, "C13: cert_file_mode must be the configured value, 0644 by default");
+    assert!(crate::DEFAULT_ACCOUNT_FILE_MODE == 0o600, "C13: account files are 0600");
+    let u = config.get_pk_file_user();
+    assert!(u.is_some() == (has_glob_table && pk_user), "C13: pk_file_user");
+    let g = config.get_cert_file_group();
+    assert!(g.is_some() == (has_glob_table && crt_group), "C13: cert_file_group");
+    assert!(config.get_pk_file_group().is_none() && config.get_cert_file_user().is_none());
+    core::mem::forget(u);
+    core::mem::forget(g);
+    core::mem::forget(config);
+}
